@@ -11,7 +11,7 @@
 
     FULL STATEMENT (DESIGN section 4), of which the theorems below prove the part marked proved:
 
-      validate_verdict   : order_ok pi -> schema_ok S = true ->
+      validate_verdict   : order_ok pi -> schema_ok S = true -> [further decidable hypotheses, below] ->
                            (validate_model repaired pi S F D = Done [] <-> Valid S F D)
       validate_error_located : In e errs -> validate_model repaired pi S F D = Done errs ->
                            e_locs e <> [] /\ every location is the position of a node of D
@@ -52,14 +52,32 @@
                                                                                C04_spreads_silent_acyclic_chains)
                   - SOUNDNESS: accepted -> Valid, every section of chapter 5 in the Spec's own formulation,
                     5.3.2 included                                               (C04_accepted_valid, C04_accepted_5_3_2)
-    NOT proved: the completeness half for 5.3.2 (the Spec's FieldsInSetCanMerge holds -> the
-    overlapping-fields pass reports no primary error), hence the "if" half of validate_verdict
-    (it is proved up to that: C04_verdict_up_to_merge_partial); validate_error_located.  These are
-    covered on every run by the correspondence check and the Spec oracle only. *)
+                  - COMPLETENESS for 5.3.2: the Spec's FieldsInSetCanMerge holds of every selection set (and the
+                    sections it leans on hold) -> the overlapping-fields pass reports nothing; its ingredients:
+                    the Spec's [collected] is complete with the parent each field is collected under; what
+                    addFieldSelections files stands for a member of [collected]; SameResponseShape and
+                    FieldsInSetCanMerge are symmetric, commute with the order of two appended lists and are
+                    monotone in the fuel; a located field merges with itself (its sub-selections are the
+                    [collected] list of a selection set of the document)
+                                                                              (C04_valid_merge_pass_silent,
+                                                                               C04_spec_collected_complete_parents, C04_filed_collected,
+                                                                               C04_spec_same_response_shape_sym, C04_spec_fields_can_merge_comm,
+                                                                               C04_spec_shape_fuel_monotone, C04_spec_merge_fuel_monotone,
+                                                                               C04_located_subfields_merge)
+                  - validate_verdict: accepted <-> Valid, for the pipeline as it is (with the checked-pairs
+                    memo) and for the one before it, under DECIDABLE hypotheses that the extracted checker
+                    evaluates on every case: on the schema schema_ok, schema_args_ok, schema_impls_ok,
+                    schema_defaults_ok, schema_types_wf (Hyps.v); on the document: selection sets and fields
+                    sit at pairwise distinct positions (true of every parsed document)
+                                                                              (C04_validate_verdict, C04_validate_verdict_plain,
+                                                                               C04_invalid_rejected)
+    NOT proved: validate_error_located (covered on every run by the correspondence check only).
+    The theorems named ..._partial are the earlier, weaker forms of validate_verdict; they are kept
+    because other properties cite them. *)
 From Coq Require Import List NArith Bool.
 From ApiFu Require Import Base.Sexp Vld.Ast Vld.Inspect Vld.InspectProofs Vld.TypeInfoModel Vld.TypeInfoPure Vld.ValidatorModel Vld.ValidSpec
      Vld.Hyps Vld.ProofsCommon Vld.ProofsDirectives Vld.ProofsArguments Vld.ProofsFragDecl Vld.ProofsValues
-     Vld.ProofsCycles Vld.ProofsVarsOrder Vld.ProofsOrder Vld.ProofsOperations Vld.ProofsTotal Vld.Enumerate Vld.ProofsFields Vld.ProofsMemo Vld.ValidatorProofs Vld.ProofsSpreads Vld.ProofsSecondary Vld.ProofsSecondaryAll Vld.ProofsSpreadsSpec Vld.ProofsFieldsConverse Vld.ProofsVarsConverse Vld.ProofsComplete Vld.ProofsCollect Vld.ProofsMergeSound Vld.ProofsMergeNames Vld.ProofsMergeLocal Vld.ProofsCollectEntries Vld.ProofsMergeSpec Vld.ProofsValid Vld.ProofsPossibleFields Vld.ProofsSpecCollect Vld.ProofsSubscription Vld.ProofsSpecReach Vld.ProofsVarsSpec Vld.ProofsDepth Vld.ProofsDepthRule Vld.MemoTransfer Vld.ProofsMemoConverse Vld.MemoEquiv Vld.ProofsTypeInfoValues Vld.Witness.
+     Vld.ProofsCycles Vld.ProofsVarsOrder Vld.ProofsOrder Vld.ProofsOperations Vld.ProofsTotal Vld.Enumerate Vld.ProofsFields Vld.ProofsMemo Vld.ValidatorProofs Vld.ProofsSpreads Vld.ProofsSecondary Vld.ProofsSecondaryAll Vld.ProofsSpreadsSpec Vld.ProofsFieldsConverse Vld.ProofsVarsConverse Vld.ProofsComplete Vld.ProofsCollect Vld.ProofsMergeSound Vld.ProofsMergeNames Vld.ProofsMergeLocal Vld.ProofsCollectEntries Vld.ProofsMergeSpec Vld.ProofsValid Vld.ProofsPossibleFields Vld.ProofsSpecCollect Vld.ProofsSubscription Vld.ProofsSpecReach Vld.ProofsVarsSpec Vld.ProofsDepth Vld.ProofsDepthRule Vld.MemoTransfer Vld.ProofsMemoConverse Vld.MemoEquiv Vld.ProofsTypeInfoValues Vld.Witness Vld.ProofsSpecMergeTheory Vld.ProofsSpecCollectP Vld.ProofsSpecLoc Vld.ProofsMergeBridge Vld.ProofsMergeComplete Vld.ProofsVerdict.
 Import ListNotations.
 
 (** ** determinism: acceptance is a function of schema, features and document alone *)
@@ -745,6 +763,78 @@ Theorem C04_violation_rejected_partial : forall pi S F D,
   validate_model repaired pi S F D <> Done [].
 Proof. exact violation_rejected. Qed.
 
+(** ** completeness for 5.3.2, and validate_verdict *)
+(** the Spec's CollectFields is complete with parents: a field written in the selection set, in an
+    inline fragment of it or in a fragment it spreads (transitively) is collected, paired with the
+    static scope of the selection set it is written in ([InCSp], ProofsMergeSpec.v) *)
+Theorem C04_spec_collected_complete_parents : forall S F D parent ss x,
+  InCSp S F D parent ss x -> In x (collected S F D parent ss).
+Proof. exact collected_complete_p. Qed.
+
+(** whatever addFieldSelections files for an annotated selection set is already in the map or stands
+    for a member of the Spec's [collected] list of that set: it is that member annotated, filed with the
+    parent type the Spec pairs it with, under its response name *)
+Theorem C04_filed_collected : forall S F D, NoDup (frag_names D) -> forall par ss m m' v,
+  add_selections repaired (pti_doc (q_unwrap_obj repaired) S F D) m (Some (pti_ss (q_unwrap_obj repaired) S F par ss)) = COk m' v ->
+  forall k l x, In (k, l) m' -> In x l ->
+    (exists l0, In (k, l0) m /\ In x l0) \/
+    (exists g, In g (collected S F D par ss) /\ fst3 x = pti_sel (q_unwrap_obj repaired) S F (snd g) (fst g) /\ snd (fst x) = snd g /\
+               k = response_name (fst3 x)).
+Proof. exact filed_collected. Qed.
+
+(** the Spec's recursive checks as wholes: symmetric, insensitive to the order of two appended
+    collections, monotone in the fuel *)
+Theorem C04_spec_same_response_shape_sym : forall S F D f x y,
+  same_response_shape S F D f x y = same_response_shape S F D f y x.
+Proof. exact srs_sym. Qed.
+Theorem C04_spec_fields_can_merge_comm : forall S F D f l1 l2,
+  fields_can_merge S F D f (l1 ++ l2) = fields_can_merge S F D f (l2 ++ l1).
+Proof. exact fcm_comm. Qed.
+Theorem C04_spec_shape_fuel_monotone : forall S F D f f' x y,
+  (f <= f')%nat -> same_response_shape S F D f x y = true -> same_response_shape S F D f' x y = true.
+Proof. exact srs_mono_le. Qed.
+Theorem C04_spec_merge_fuel_monotone : forall S F D f f' l,
+  (f <= f')%nat -> fields_can_merge S F D f l = true -> fields_can_merge S F D f' l = true.
+Proof. exact fcm_mono_le. Qed.
+
+(** a field merges with itself: the sub-selections of a field written in a selection set the Spec
+    enumerates ([Loc]) are the [collected] list of a selection set the Spec enumerates, so 5.3.2
+    speaks of them directly.  (The validator files a field twice when both of two merged fields reach
+    it; this is what makes its comparison of the two copies succeed.) *)
+Theorem C04_located_subfields_merge : forall S F D,
+  composite_name S n_String = false -> valid_5_3_3 S F D = true -> valid_5_5_2_2 D = true -> valid_5_3_2 S F D = true ->
+  forall c, Loc S F D c -> fields_can_merge S F D (nesting_bound D) (cf_sub S F D c) = true.
+Proof. exact loc_fcm. Qed.
+
+(** 5.3.2 and the sections it leans on => the overlapping-fields pass (with the memo) is silent *)
+Theorem C04_valid_merge_pass_silent : forall pi S F D,
+  order_ok pi -> schema_ok S = true -> schema_types_wf S = true ->
+  valid_root S D = true -> valid_5_3_1 S F D = true -> valid_5_3_3 S F D = true -> valid_5_4_2 S F D = true ->
+  valid_5_5_1 S F D = true -> valid_5_5_2_1 D = true -> valid_5_5_2_2 D = true ->
+  valid_5_3_2 S F D = true ->
+  rule_fields_m repaired pi S F (pti_doc (q_unwrap_obj repaired) S F D) = Done [].
+Proof. exact valid_merge_pass_silent. Qed.
+
+(** validate_verdict: the validator as it is accepts exactly the valid documents *)
+Theorem C04_validate_verdict : forall pi S F D,
+  order_ok pi ->
+  schema_ok S = true -> schema_args_ok S = true -> schema_impls_ok S = true -> schema_defaults_ok S = true -> schema_types_wf S = true ->
+  doc_set_positions_distinct D -> doc_field_positions_distinct D ->
+  (validate_model_memo repaired pi S F D = Done [] <-> Valid S F D).
+Proof. exact validate_verdict. Qed.
+Theorem C04_validate_verdict_plain : forall pi S F D,
+  order_ok pi ->
+  schema_ok S = true -> schema_args_ok S = true -> schema_impls_ok S = true -> schema_defaults_ok S = true -> schema_types_wf S = true ->
+  doc_set_positions_distinct D -> doc_field_positions_distinct D ->
+  (validate_model repaired pi S F D = Done [] <-> Valid S F D).
+Proof. exact validate_verdict_plain. Qed.
+Theorem C04_invalid_rejected : forall pi S F D,
+  order_ok pi ->
+  schema_ok S = true -> schema_args_ok S = true -> schema_impls_ok S = true -> schema_defaults_ok S = true -> schema_types_wf S = true ->
+  doc_set_positions_distinct D -> doc_field_positions_distinct D ->
+  valid_all S F D = false -> exists e errs, validate_model_memo repaired pi S F D = Done (e :: errs).
+Proof. exact invalid_rejected. Qed.
+
 (** ** the repaired defects: with the repair switched off the model shows the defect *)
 (** DESIGN 6 row 8: a violation beneath a node carrying arguments / directives was accepted *)
 Theorem C04_refuted_before_fix_descend :
@@ -851,3 +941,14 @@ Print Assumptions C04_violation_rejected_partial.
 Print Assumptions C04_refuted_before_fix_descend.
 Print Assumptions C04_refuted_before_fix_revisit.
 Print Assumptions C04_refuted_before_fix_nil_argument.
+Print Assumptions C04_spec_collected_complete_parents.
+Print Assumptions C04_filed_collected.
+Print Assumptions C04_spec_same_response_shape_sym.
+Print Assumptions C04_spec_fields_can_merge_comm.
+Print Assumptions C04_spec_shape_fuel_monotone.
+Print Assumptions C04_spec_merge_fuel_monotone.
+Print Assumptions C04_located_subfields_merge.
+Print Assumptions C04_valid_merge_pass_silent.
+Print Assumptions C04_validate_verdict.
+Print Assumptions C04_validate_verdict_plain.
+Print Assumptions C04_invalid_rejected.
